@@ -19,6 +19,7 @@ def explore_scenario(prog, sc, judge):
     out = {"entry": name, "states": 0, "queries": 0, "solver_s": 0.0, "obligations": 0, "discharged": 0,
            "inconclusive": [], "gaps": {}, "reports": [], "samples": [], "stubs": [], "kinds": {}}
     eng = H.new_engine(prog, loop_bound=64)
+    _c0 = H.cross_begin()
 
     def thunk(ctx):
         return O.run_scenario(eng, ctx, sc)
@@ -38,7 +39,9 @@ def explore_scenario(prog, sc, judge):
             t = time.time()
             r = s.check()
             out["solver_s"] += time.time() - t
-            out["queries"] += 1
+            if not H.cross_check(s, r, what):
+                out["inconclusive"].append("second solver disagrees: %s" % H.CROSS["disagree"][-1])
+                out["queries"] += 1
             if r == z3.unsat:
                 out["discharged"] += 1
                 return True
@@ -86,6 +89,7 @@ def explore_scenario(prog, sc, judge):
     out["solver_s"] += st.solver_s
     out["blocks"] = {prog.pretty(kk[1]): len(vv) for kk, vv in st.blocks_hit.items()}
     out["stubs"] = sorted(set(c.split("::<")[0][:80] for c in st.calls_modelled))
+    out["cross"] = H.cross_end(_c0)
     return out
 
 
@@ -97,6 +101,7 @@ def collect(chk, results, confirm):
         if isinstance(out, Exception) or out is None:
             chk.inconclusive.append("worker failed: %r" % (out,))
             continue
+        chk.add_cross(out)
         chk.states += out["states"]
         chk.transitions += out["queries"]
         chk.solver_s += out["solver_s"]
